@@ -30,6 +30,7 @@ import (
 	"github.com/mutagen-io/mutagen/pkg/synchronization/hashing"
 	"github.com/mutagen-io/mutagen/pkg/synchronization/rsync"
 
+	"verif/internal/fsx"
 	"verif/internal/vk"
 )
 
@@ -730,13 +731,32 @@ func (x *c21Run) scan(which string, full bool) stepOutcome {
 	var snaps [2]*core.Snapshot
 	var errs [2]error
 	var again [2]bool
-	for i, s := range x.sides() {
-		// the ancestor argument only seeds the client's first delta base; use
-		// the last known snapshot content of this root, as the controller would
-		var anc *core.Entry
-		if prev := x.snap[which]; prev != nil && x.rng.Intn(2) == 0 {
-			anc = prev.Content
+	// The ancestor argument seeds the remote client's delta base as long as it
+	// has not received a populated snapshot (first scan, or after scans of an
+	// absent root). The controller passes its archive there, which usually
+	// resembles the disk; do the same: an independent walk of the root for a
+	// first scan, else the last snapshot of this root or of the other root, or nil.
+	var anc *core.Entry
+	other := map[string]string{"a": "b", "b": "a"}[which]
+	switch prev := x.snap[which]; {
+	case prev == nil && x.rng.Intn(4) != 0:
+		slm, pm := x.p.cfg.SymbolicLinkMode, x.p.cfg.PermissionsMode
+		if slm.IsDefault() {
+			slm = core.SymbolicLinkMode_SymbolicLinkModePortable
 		}
+		if pm.IsDefault() {
+			pm = core.PermissionsMode_PermissionsModePortable
+		}
+		if w, _, err := fsx.Walk(x.L.root(which), fsx.WalkOptions{SymbolicLinkMode: slm, PermissionsMode: pm}); err == nil && w != nil && w.EnsureValid(false) == nil {
+			anc = w
+			x.r.Count("scans_with_walked_ancestor", 1)
+		}
+	case prev != nil && x.rng.Intn(3) == 0:
+		anc = prev.Content
+	case x.snap[other] != nil && x.rng.Intn(2) == 0:
+		anc = x.snap[other].Content
+	}
+	for i, s := range x.sides() {
 		sn, err, ta := s.ep[which].Scan(context.Background(), anc, full)
 		snaps[i], errs[i], again[i] = cloneSnapshot(sn, s), err, ta
 	}
